@@ -305,21 +305,57 @@ pub fn check_accepted(c: &ShadowCase, st: &mut Stats) -> Result<(), Failure> {
     let mut t_b = t_a.clone();
     t_b.reverse();
     st.count("sets");
+    let text = || table.iter().map(|e| format!("{}:{} {} [{}]", e.op, e.method, e.template(), e.range.text())).collect::<Vec<_>>().join("; ");
     let mut apis = vec![];
-    for t in [&t_a, &t_b] {
+    for (name, t) in [("order A", &t_a), ("the reverse of A", &t_b)] {
         let mut api = dropshot::ApiDescription::new();
+        let mut all = true;
         for e in t.iter() {
             if !try_register(&mut api, e, &default_path_spec(e), None, &[]).accepted() {
-                st.count("sets_with_a_refusal");
-                return Ok(());
+                all = false;
+                break;
             }
         }
-        apis.push(api);
+        if all {
+            apis.push((name, t, api));
+        }
+    }
+    if apis.len() < 2 {
+        st.count("sets_with_a_refusal");
+    }
+    if apis.len() == 1 {
+        // accepted in one order only: that API exists, and the statement covers it
+        st.count("sets_accepted_in_one_order_only");
+        let (name, t, api) = apis.pop().unwrap();
+        let l = into_lookup(api);
+        for p in &c.base.probes {
+            let pr = interpret_probe(&table, p);
+            let v = Some(&pr.version);
+            let d = dispatch(&table, &pr.method, &pr.segs, v);
+            st.eval();
+            ensure!(
+                d.len() <= 1,
+                "request-matches-two-accepted-endpoints",
+                "{} {} @{} matches {:?}, all of which registration accepted when registered in {} ({}): [{}]; it dispatches {:?}",
+                pr.method,
+                pr.raw_path,
+                pr.version.text(),
+                d.iter().map(|(e, _)| e.op.clone()).collect::<Vec<_>>(),
+                name,
+                t.iter().map(|e| e.op.clone()).collect::<Vec<_>>().join(", "),
+                text(),
+                l(&pr.method, &pr.raw_path, v)
+            );
+        }
+        return Ok(());
+    }
+    if apis.is_empty() {
+        return Ok(());
     }
     st.count("sets_fully_accepted");
+    let mut apis: Vec<_> = apis.into_iter().map(|(_, _, a)| a).collect();
     let lb = into_lookup(apis.pop().unwrap());
     let la = into_lookup(apis.pop().unwrap());
-    let text = || table.iter().map(|e| format!("{}:{} {} [{}]", e.op, e.method, e.template(), e.range.text())).collect::<Vec<_>>().join("; ");
     for p in &c.base.probes {
         let pr = interpret_probe(&table, p);
         let v = Some(&pr.version);
